@@ -356,8 +356,14 @@ def gen_history(rng, nappend, structural=None, auto=None, variant=None):
     elif structural == "variations":
         init["integrator"] = rng.choice(["ias15", "leapfrog"])
         init["particles"] = [gen_particle(rng, star=True), gen_particle(rng), gen_particle(rng)]
-        ops = [["steps", 1], ["snap"], ["variation", 1], ["varinit", 0.3], ["steps", 2], ["snap"], ["lrescale", -1.0], ["snap"], ["variation_tp"], ["varinit", -0.7],
-               ["steps", 1], ["snap"]] + ([["variation", 2], ["varinit", 0.1], ["steps", 1], ["snap"]] if init["integrator"] == "ias15" else []) + [["megno"], ["steps", 2], ["snap"]]
+        if variant is not None:
+            init["integrator"] = "ias15" if (variant // 36) % 2 == 0 else "leapfrog"
+        if variant is not None and (variant // 18) % 2 == 0:
+            # MEGNO: init_megno() adds its own variational particles and the megno_* fields
+            ops = [["steps", 1], ["snap"], ["megno"], ["steps", 2], ["snap"], ["varinit", 0.2], ["steps", 2], ["snap"], ["lrescale", 1.5], ["snap"]]
+        else:
+            ops = [["steps", 1], ["snap"], ["variation", 1], ["varinit", 0.3], ["steps", 2], ["snap"], ["lrescale", -1.0], ["snap"], ["variation_tp"], ["varinit", -0.7],
+                   ["steps", 1], ["snap"]] + ([["variation", 2], ["varinit", 0.1], ["steps", 1], ["snap"]] if init["integrator"] == "ias15" else [])
     elif structural == "huge_n":
         nbig = nappend if nappend >= 100 else 600
         init["integrator"] = "leapfrog"
@@ -503,7 +509,20 @@ def run_history(rebound, hist, wd, load_back=True, keep_copies=False):
         if keep_copies:
             import shutil
             shutil.copy(fn, os.path.join(wd, "a%d.bin" % len(meta["appends"])))
-        capture(sim, "manual")
+        try:
+            capture(sim, "manual")
+        except Exception as e:
+            # the snapshot is in the archive; if the live state cannot be serialised / copied a second time the append
+            # is still accounted for (reduced oracle for this history)
+            k = len(meta["appends"]) if len(kept) == len(meta["appends"]) else len(meta["appends"]) - 1
+            del kept[k:]
+            del meta["appends"][k:]
+            p_ = os.path.join(wd, "s%d.bin" % k)
+            if os.path.exists(p_):
+                os.remove(p_)
+            kept.append(None)
+            meta["appends"].append(dict(kind="manual", t=hex64(sim.t), steps=int(sim.steps_done), N=int(sim.N), selfeq=False, nocapture=True))
+            meta["events"].append("capture-exception:" + repr(e)[:160])
 
     def hb(simp):
         s = simp.contents
@@ -683,13 +702,18 @@ def run_history(rebound, hist, wd, load_back=True, keep_copies=False):
                         s_ = simp.contents
                         caps.append(dict(steps=int(s_.steps_done), t=hex64(s_.t), path=None, copy=None, selfeq=False))
                     sim.heartbeat = hb_light
+                else:
+                    sim.heartbeat = hb
+                try:
                     if op[2] is None:
                         sim.integrate(sim.t + op[1])
                     else:
                         sim.integrate(sim.t + op[1], exact_finish_time=op[2])
-                else:
-                    sim.heartbeat = hb
-                    sim.integrate(sim.t + op[1], exact_finish_time=op[2])
+                except Exception as e:
+                    # integrate() ended with an exception (escape, no particles left, ...): snapshots taken up to
+                    # that point are in the archive and are accounted for below
+                    meta["events"].append("integrate-exception:" + repr(e)[:100])
+                    nocap = True
                 # final state (after synchronize): the archive heartbeat at the end of integrate sees this one
                 hbtrace = [(c["steps"], c["t"]) for c in caps]
                 fin_p = os.path.join(wd, "cfin.bin")
@@ -742,7 +766,7 @@ def run_history(rebound, hist, wd, load_back=True, keep_copies=False):
                                            next_after=hex64(sim.simulationarchive_next),
                                            next_step_after=int(sim.simulationarchive_next_step)))
                 for c in caps:
-                    if os.path.exists(c["path"]):
+                    if c["path"] and os.path.exists(c["path"]):
                         os.remove(c["path"])
             elif o == "nop":
                 pass
